@@ -141,12 +141,12 @@ pub fn generate(r: &mut Runner) {
         let name = INDS[i % INDS.len()];
         let (np, nm) = crate::ind::arity(name).unwrap();
         let ps: Vec<usize> = (0..np).map(|_| gen::period(&mut r.rng, 200)).collect();
-        let ms: Vec<f64> = (0..nm).map(|_| *r.rng.pick(&[0.5, 1.0, 2.0, 3.0, 10.0])).collect();
+        let ms: Vec<f64> = (0..nm).map(|_| *r.rng.pick(&[0.5, 1.0, 2.0, 3.0, 10.0, 0.0, -1.0, -2.5])).collect();
         let len = r.rng.range(1, maxlen);
         let regime = *r.rng.pick(gen::REGIMES);
         let scale = *r.rng.pick(&[1e-17, 1e-9, 1e-2, 1.0, 100.0, 1e6]);
         let bars = !crate::ind::has_next_name(name) || (name != "BollingerBands" && name != "MovingAverageConvergenceDivergence" && name != "PercentagePriceOscillator" && r.rng.chance(0.5));
-        let positive = bars || name == "PercentagePriceOscillator" || r.rng.chance(0.5);
+        let positive = bars || r.rng.chance(0.5);
         let xs = gen::stream(&mut r.rng, regime, len, positive, scale);
         let mut c = Case::new("C15", if bars { "bars" } else { "scalars" }, name, &ps, &ms);
         if bars {
@@ -160,4 +160,4 @@ pub fn generate(r: &mut Runner) {
     }
 }
 
-pub const RULE: &str = "8 composites × periods to 200 × multipliers {0.5,1,2,3,10} × finite scalar streams (any sign where the composite accepts it) / valid bars with close != (high+low)/2 in 9 regimes; at every step the composite's outputs are compared with separately constructed PUBLIC parts (SMA, StandardDeviation, MAD, FastStochastic, EMA×3, TrueRange, ATR, Minimum, Maximum) fed the same stream and combined as documented: tau(t)·M (×condition number for PPO and CCI, on variances for the Bollinger half-width). Non-trivial = longer than the largest period.";
+pub const RULE: &str = "8 composites × periods to 200 × multipliers {0.5,1,2,3,10,0,-1,-2.5} × finite scalar streams (any sign where the composite accepts it) / valid bars with close != (high+low)/2 in 9 regimes; at every step the composite's outputs are compared with separately constructed PUBLIC parts (SMA, StandardDeviation, MAD, FastStochastic, EMA×3, TrueRange, ATR, Minimum, Maximum) fed the same stream and combined as documented: tau(t)·M (×condition number for PPO and CCI, on variances for the Bollinger half-width). Non-trivial = longer than the largest period.";
